@@ -13,6 +13,8 @@ structure D where
   st : St := {}
   hold : Bool := false
   holdBusy : Bool := false
+  /-- the resubscription snapshot is being sent and its Send is blocked (token K) -/
+  snapHold : Bool := false
   failAt : Nat := 0
   sends : Nat := 0
   /-- streams, newest first, each with its messages newest first -/
@@ -52,6 +54,7 @@ def stepTok (d : D) (tok : String) : Option D :=
       | some s =>
         let d1 := { d with st := s }
         if !eff || !d1.up then some d1
+        else if d.snapHold then some d1            -- it waits in the pending list until the snapshot has been sent
         else if d.hold && d.holdBusy then some d1
         else if d.hold then (d1.takeAndEnter).map fun d2 => { d2 with holdBusy := true }
         else d1.takeAndEnter.bind D.finishSend
@@ -75,11 +78,31 @@ def stepTok (d : D) (tok : String) : Option D :=
             if k == 1 then (step s .resubFail).map fun s' => { d2 with st := s' }
             else (step s .resubSent).map fun s' => { d2 with st := s' }
         | _ => none
+  else if tok == "K" then
+    -- a stream is created and the Send of the resubscription snapshot blocks
+    if d.up then some d else
+    match step d.st .connect with
+    | none => none
+    | some s =>
+      let d1 := { d with st := s, failAt := 0, sends := 0, log := (d.log.length + 1, []) :: d.log }
+      match s.phase with
+      | .snap l =>
+        if l.isEmpty then (step s .resubSent).map fun s' => { d1 with st := s' }
+        else some { (d1.record { subs := l, unsubs := [] }) with snapHold := true }
+      | _ => none
   else if tok == "R" then
-    if d.hold then none
+    if d.hold || d.snapHold then none
     else if d.up then (step d.st .recvFail).map fun s => { d with st := s } else some d
   else if tok == "H" then
-    if d.up && !d.hold then some { d with hold := true, holdBusy := false } else some d
+    if d.snapHold then none
+    else if d.up && !d.hold then some { d with hold := true, holdBusy := false } else some d
+  else if tok == "L" && d.snapHold then
+    -- the snapshot's Send returns: the stream is up; what piled up meanwhile goes out in one request
+    match step d.st .resubSent with
+    | none => none
+    | some s =>
+      let d1 := { d with st := s, snapHold := false }
+      if !d1.st.pending.isEmpty then d1.takeAndEnter.bind D.finishSend else some d1
   else if tok == "L" then
     if !d.hold then some d
     else if !d.holdBusy then some { d with hold := false }
@@ -129,6 +152,7 @@ def handle (kind : String) (args : List String) (impl : String) : String :=
     match runToks {} args with
     | none => "bad-op"
     | some d0 =>
+      if d0.snapHold then "bad-op" else      -- the script must release the snapshot with L
       let d := if d0.hold then (stepTok d0 "L").getD d0 else d0
       let m := showD d
       let dd := if impl == m then "" else s!"DIFF model={m} impl={impl}"
